@@ -277,12 +277,76 @@ class SymSeq(Model):
         if reg is not None and fn in getattr(reg, "generic_loops", ()):
             # independent-iterations rule: the body is executed once for an arbitrary index; sound when the body writes
             # only to a write-only accumulator (a recording model) -- the contract that enables this states that frame
+            carried = loop_carried_names(node)
+            if carried:
+                raise Unsupported("independent-iterations rule does not apply: the loop body carries %s from one iteration to the next" % sorted(carried))
             j = self.fresh_index(I, "j")
             I.P.ghost.setdefault("generic_indices", []).append(j)
             I.assign_target(node.target, self.at(I, j), fr)
             I.exec_block(node.body, fr)
             return
         summarise_loop(I, self, node, fr)
+
+
+def loop_carried_names(loop):
+    """Names assigned in the loop body that may be read before they are (definitely) assigned in the same iteration, plus
+    attribute/subscript stores: such a body is not a set of independent iterations."""
+    assigned_anywhere = set()
+    for n in ast.walk(ast.Module(body=loop.body, type_ignores=[])):
+        if isinstance(n, ast.Name) and isinstance(n.ctx, ast.Store):
+            assigned_anywhere.add(n.id)
+    targets = {n.id for n in ast.walk(loop.target) if isinstance(n, ast.Name)}
+    carried = set()
+
+    def reads(expr, definite):
+        for n in ast.walk(expr):
+            if isinstance(n, ast.Name) and isinstance(n.ctx, ast.Load) and n.id in assigned_anywhere and n.id not in definite and n.id not in targets:
+                carried.add(n.id)
+
+    def block(stmts, definite):
+        definite = set(definite)
+        for st in stmts:
+            if isinstance(st, ast.Assign):
+                reads(st.value, definite)
+                for t in st.targets:
+                    if isinstance(t, ast.Name):
+                        definite.add(t.id)
+                    elif isinstance(t, (ast.Tuple, ast.List)) and all(isinstance(e, ast.Name) for e in t.elts):
+                        definite.update(e.id for e in t.elts)
+                    else:
+                        carried.add("<store to %s>" % ast.unparse(t)[:30])
+            elif isinstance(st, ast.AugAssign):
+                reads(st.value, definite)
+                if isinstance(st.target, ast.Name):
+                    if st.target.id not in definite:
+                        carried.add(st.target.id)
+                else:
+                    carried.add("<store to %s>" % ast.unparse(st.target)[:30])
+            elif isinstance(st, ast.If):
+                reads(st.test, definite)
+                a = block(st.body, definite)
+                b = block(st.orelse, definite)
+                definite |= (a & b)
+            elif isinstance(st, (ast.For, ast.While)):
+                reads(st.iter if isinstance(st, ast.For) else st.test, definite)
+                inner_t = {n.id for n in ast.walk(st.target) if isinstance(n, ast.Name)} if isinstance(st, ast.For) else set()
+                block(st.body, definite | inner_t)
+            elif isinstance(st, (ast.Expr, ast.Assert, ast.Return)):
+                if getattr(st, "value", None) is not None:
+                    reads(st.value, definite)
+                if isinstance(st, ast.Assert):
+                    reads(st.test, definite)
+            elif isinstance(st, (ast.Pass, ast.Continue, ast.Break)):
+                pass
+            else:
+                for n in ast.walk(st):
+                    if isinstance(n, ast.expr):
+                        reads(n, definite)
+                        break
+        return definite
+
+    block(loop.body, set())
+    return carried
 
 
 def seq_sum(I, seq):
@@ -505,6 +569,9 @@ def py_list(I, x=None):
 
 
 def py_enumerate(I, xs, start=0):
+    if isinstance(xs, SymSeq):
+        return SymSeq("enumerate(%s)" % xs.key, xs.core_len, lambda i: (_num_or_int(I.to_num(i) + start), xs.core_at(I, i)),
+                      tail=[(_num_or_int(xs.core_len + k + start), v) for k, v in enumerate(xs.tail)])
     return [(k + start, v) for k, v in enumerate(I.iterate(xs))]
 
 
